@@ -59,6 +59,9 @@ def classify(x, peaks, troughs):
     return labs
 
 
+HELD = []        # (rises, decays of an earlier call, what they must still be): results handed out stay valid
+
+
 def core(x, peaks, troughs, rec, idx_dtype=None):
     peaks = np.asarray(peaks, dtype=int)
     troughs = np.asarray(troughs, dtype=int)
@@ -94,6 +97,11 @@ def core(x, peaks, troughs, rec, idx_dtype=None):
             ref.first_diff(decays, exp_d), x.tolist()[:40], peaks.tolist()[:12], troughs.tolist()[:12]))
     if not np.array_equal(xin, x):
         raise Violation('input-mutated', '')
+    for (old_r, old_d, want_r, want_d) in HELD:
+        if not (np.array_equal(old_r, want_r) and np.array_equal(old_d, want_d)):
+            raise Violation('earlier-result-changed-by-later-call', 'the arrays returned for an earlier recording changed when find_zerox was called again (%d rises, %d decays now)' % (len(rises), len(decays)))
+    del HELD[:-2]
+    HELD.append((rises, decays, np.array(exp_r, copy=True), np.array(exp_d, copy=True)))
     labs = classify(x, peaks, troughs)
     pattern = ev[0][1] + '..' + ev[-1][1]
     rec.label('pattern:' + pattern, *sorted(labs))
@@ -112,6 +120,8 @@ def check_enum(case, rec):
         pre = (1e4 * np.sin(np.arange(L) * 0.3)).astype(np.float32)
         x = np.concatenate([pre, x.astype(np.float32)])
         shift = L
+    if case.get('int_dtype') and not case.get('scale_exp') and not case.get('gain') and not case.get('loud_prefix'):
+        x = np.array(case['x']).astype(case['int_dtype'])      # raw counts, negative ones included
     if case.get('ulp_base'):
         # a trace riding on an offset and quantised at the last bit of its dtype: neighbouring levels are adjacent floats, so the
         # halfway level of a flank between adjacent levels rounds onto one of its two extrema
@@ -123,7 +133,7 @@ def check_enum(case, rec):
         x = np.concatenate([np.zeros(case['quiet_prefix'], dtype=x.dtype), x])
         shift += case['quiet_prefix']
     rec.label('scale:%s' % ('1' if not case.get('scale_exp') else ('tiny' if case['scale_exp'] < -20 else 'other')),
-              'gain:%s' % (case.get('gain') or 1), 'ulp-levels' if case.get('ulp_base') else 'ordinary-levels', 'index-dtype:%s' % (case.get('idx_dtype') or 'int64'))
+              'gain:%s' % (case.get('gain') or 1), 'ulp-levels' if case.get('ulp_base') else 'ordinary-levels', 'signal-dtype:%s' % x.dtype, 'index-dtype:%s' % (case.get('idx_dtype') or 'int64'))
     core(x, [p + shift for p in case['peaks']], [t + shift for t in case['troughs']], rec, idx_dtype=case.get('idx_dtype'))
 
 
@@ -189,6 +199,8 @@ def strat_raw(draw, tier):
     if special == 0:
         case.update(scale_exp=0, gain=None, loud_prefix=0,
                     ulp_base=draw(st.sampled_from([[1.0, 'float64'], [1000.0, 'float32'], [-3.0e7, 'float64'], [0.1, 'float64'], [65504.0, 'float32']])))
+    elif special == 2:
+        case.update(scale_exp=0, gain=None, loud_prefix=0, int_dtype=draw(st.sampled_from(['int64', 'int32', 'int16', 'int8'])))
     elif special == 1:
         dt, pre = draw(st.sampled_from([['int32', 0], ['int16', 0], ['uint16', 0], ['uint8', 0], ['int16', 16384 + 300], ['int16', 30000], ['uint16', 33000], ['uint16', 60000], ['int32', 70000]]))
         case.update(loud_prefix=0, idx_dtype=dt, quiet_prefix=pre)
